@@ -6,7 +6,7 @@ use bio::alignment::{Alignment, AlignmentOperation};
 const NEG: i64 = -1_000_000_000;
 
 /// best affine-gap score; mode 0 global, 1 semiglobal (x global, y local), 2 local
-fn reference(x: &[u8], y: &[u8], ms: i64, mm: i64, go: i64, ge: i64, mode: u8) -> i64 {
+pub fn reference(x: &[u8], y: &[u8], ms: i64, mm: i64, go: i64, ge: i64, mode: u8) -> i64 {
     let (m, n) = (x.len(), y.len());
     let mut s = vec![vec![NEG; n + 1]; m + 1];
     let mut ii = vec![vec![NEG; n + 1]; m + 1];   // gap consuming x
@@ -29,11 +29,12 @@ fn reference(x: &[u8], y: &[u8], ms: i64, mm: i64, go: i64, ge: i64, mode: u8) -
 }
 
 /// re-score an alignment path and check that it is a real alignment of the reported sub-ranges
-fn rescore(a: &Alignment, x: &[u8], y: &[u8], ms: i64, mm: i64, go: i64, ge: i64, clips: [i64; 4]) -> Result<i64, String> {
+pub fn rescore(a: &Alignment, x: &[u8], y: &[u8], ms: i64, mm: i64, go: i64, ge: i64, clips: [i64; 4]) -> Result<i64, String> {
     let (mut i, mut j) = (a.xstart, a.ystart);
     let mut score = 0i64;
     let mut prev = 0u8; // 1 ins, 2 del
     let mut seen_core = false;
+    let (mut xpre, mut ypre) = (false, false);
     for op in &a.operations {
         match *op {
             AlignmentOperation::Match | AlignmentOperation::Subst => {
@@ -45,8 +46,12 @@ fn rescore(a: &Alignment, x: &[u8], y: &[u8], ms: i64, mm: i64, go: i64, ge: i64
             }
             AlignmentOperation::Ins => { if i >= x.len() { return Err("Ins past the end of x".into()); } score += if prev == 1 { ge } else { go + ge }; i += 1; prev = 1; seen_core = true; }
             AlignmentOperation::Del => { if j >= y.len() { return Err("Del past the end of y".into()); } score += if prev == 2 { ge } else { go + ge }; j += 1; prev = 2; seen_core = true; }
-            AlignmentOperation::Xclip(k) => { prev = 0; if !seen_core && i == a.xstart { if k != a.xstart { return Err(format!("Xclip({}) prefix but xstart = {}", k, a.xstart)); } score += clips[0]; } else { if i + k != x.len() { return Err(format!("Xclip({}) suffix at x position {} of {}", k, i, x.len())); } score += clips[1]; } }
-            AlignmentOperation::Yclip(k) => { prev = 0; if !seen_core && j == a.ystart { if k != a.ystart { return Err(format!("Yclip({}) prefix but ystart = {}", k, a.ystart)); } score += clips[2]; } else { if j + k != y.len() { return Err(format!("Yclip({}) suffix at y position {} of {}", k, j, y.len())); } score += clips[3]; } }
+            AlignmentOperation::Xclip(k) => { prev = 0;
+                if i == a.xstart && !xpre && k == a.xstart { xpre = true; score += clips[0]; }
+                else { if i + k != x.len() { return Err(format!("Xclip({}) suffix at x position {} of {}", k, i, x.len())); } score += clips[1]; } }
+            AlignmentOperation::Yclip(k) => { prev = 0;
+                if j == a.ystart && !ypre && k == a.ystart { ypre = true; score += clips[2]; }
+                else { if j + k != y.len() { return Err(format!("Yclip({}) suffix at y position {} of {}", k, j, y.len())); } score += clips[3]; } }
         }
     }
     if i != a.xend || j != a.yend { return Err(format!("path ends at ({}, {}), reported end is ({}, {})", i, j, a.xend, a.yend)); }
@@ -68,10 +73,15 @@ fn check(x: &[u8], y: &[u8], ms: i32, mm: i32, go: i32, ge: i32, warm: &[u8]) ->
             }
             let want = reference(&x, &y, msl, mml, gol, gel, mode);
             if a.score as i64 != want { return Err(format!("mode {}: score {} but the optimum is {}", mode, a.score, want)); }
-            // semiglobal/local have their clip operations filtered out; the remaining path must score exactly the reported score
-            let clips = [0i64; 4];
-            let got = rescore(&a, &x, &y, msl, mml, gol, gel, clips).map_err(|e| format!("mode {}: {}", mode, e))?;
-            if got != a.score as i64 { return Err(format!("mode {}: path {:?} re-scores to {} but the reported score is {}", mode, a.operations, got, a.score)); }
+            // the wrappers filter clip operations out of the path; re-score the same alignment with the clips still in it (`custom` with the mode's penalties)
+            let (xc, yc) = match mode { 0 => (MIN_SCORE, MIN_SCORE), 1 => (MIN_SCORE, 0), _ => (0, 0) };
+            let mut c = Aligner::with_scoring(Scoring::from_scores(go, ge, ms, mm).xclip(xc).yclip(yc));
+            let u = c.custom(&x, &y);
+            if u.score != a.score { return Err(format!("mode {}: wrapper score {} != custom-with-mode-penalties score {}", mode, a.score, u.score)); }
+            let strip = |ops: &Vec<AlignmentOperation>| ops.iter().cloned().filter(|o| !matches!(o, AlignmentOperation::Xclip(_) | AlignmentOperation::Yclip(_))).collect::<Vec<_>>();
+            if mode > 0 && strip(&u.operations) != a.operations { return Err(format!("mode {}: wrapper path {:?} is not the custom path {:?} without clips", mode, a.operations, u.operations)); }
+            let got = rescore(&u, &x, &y, msl, mml, gol, gel, [xc as i64, xc as i64, yc as i64, yc as i64]).map_err(|e| format!("mode {}: {}", mode, e))?;
+            if got != u.score as i64 { return Err(format!("mode {}: path {:?} re-scores to {} but the reported score is {}", mode, u.operations, got, u.score)); }
             if mode == 0 && (a.xstart, a.ystart, a.xend, a.yend) != (0, 0, x.len(), y.len()) { return Err("global alignment does not span both sequences".into()); }
             if mode == 1 && (a.xstart, a.xend) != (0, x.len()) { return Err("semiglobal alignment does not span x".into()); }
         }
